@@ -17,6 +17,9 @@ kinds
   commute    `a * b` -> `b * a`, `a + b` -> `b + a`; only inside numba-jitted functions (numeric operands: IEEE
              multiplication and addition commute exactly; the grouping of longer chains is kept)
   augexpand  `t[i] += e` -> `t[i] = t[i] + (e)` (likewise -=, *=); subscript targets only, inside jitted functions
+  idiom      `x ** 2` <-> `x * x`, `a.dot(b)` -> `a @ b`, `x.T` -> `x.transpose()`, `e / 2` -> `0.5 * e` (the numeric ones
+             inside jitted functions only)
+  crename    like rename, for locals captured by a nested function (renamed in the closure as well)
   temp       a call or binary sub-expression of an assignment / return is computed into a new local on the line before
              (not taken from under a lambda, comprehension, conditional expression or and/or)
   hoist      like temp, but the new local is computed two statements earlier (before the preceding simple statement,
@@ -38,7 +41,7 @@ import mutscan  # noqa: E402
 
 VERIF = mutscan.VERIF
 REPO = mutscan.REPO
-KINDS = ("rename", "crename", "cmpflip", "ifinvert", "ternary", "commute", "augexpand", "temp", "hoist", "kwarg")
+KINDS = ("rename", "crename", "cmpflip", "ifinvert", "ternary", "commute", "augexpand", "idiom", "temp", "hoist", "kwarg")
 FLIP = {ast.Eq: "==", ast.NotEq: "!=", ast.Lt: ">", ast.LtE: ">=", ast.Gt: "<", ast.GtE: "<="}
 AUG = {ast.Add: "+", ast.Sub: "-", ast.Mult: "*"}
 
@@ -141,6 +144,23 @@ def rewrites(rel, src, per_function, kinds):
             if "augexpand" in kinds and jit and isinstance(n, ast.AugAssign) and isinstance(n.target, ast.Subscript) and type(n.op) in AUG:
                 new = "%s = %s %s (%s)" % (seg(n.target), seg(n.target), AUG[type(n.op)], seg(n.value))
                 per_kind["augexpand"].append(dict(base, kind="augexpand", what="%d: %s" % (n.lineno, seg(n)[:50]), edits=[pos(n) + (new,)]))
+            if "idiom" in kinds:
+                new = None
+                # x ** 2 <-> x * x (pure operand), a.dot(b) <-> a @ b, x.T <-> x.transpose(), e / 2 <-> 0.5 * e, inside jitted functions
+                if jit and isinstance(n, ast.BinOp) and isinstance(n.op, ast.Pow) and isinstance(n.right, ast.Constant) and n.right.value == 2 and isinstance(n.left, (ast.Name, ast.Subscript, ast.Attribute)) \
+                        and not any(isinstance(y, ast.Call) for y in ast.walk(n.left)):
+                    new = "(%s * %s)" % (seg(n.left), seg(n.left))
+                elif jit and isinstance(n, ast.BinOp) and isinstance(n.op, ast.Mult) and isinstance(n.left, (ast.Name, ast.Subscript)) and ast.dump(n.left) == ast.dump(n.right) \
+                        and not any(isinstance(y, ast.Call) for y in ast.walk(n.left)):
+                    new = "(%s) ** 2" % seg(n.left)
+                elif isinstance(n, ast.Call) and isinstance(n.func, ast.Attribute) and n.func.attr == "dot" and len(n.args) == 1 and not n.keywords and not (isinstance(n.func.value, ast.Name) and n.func.value.id in ("np", "_np", "numpy", "self")):
+                    new = "((%s) @ (%s))" % (seg(n.func.value), seg(n.args[0]))
+                elif jit and isinstance(n, ast.Attribute) and n.attr == "T" and isinstance(n.ctx, ast.Load):
+                    new = "(%s).transpose()" % seg(n.value)
+                elif jit and isinstance(n, ast.BinOp) and isinstance(n.op, ast.Div) and isinstance(n.right, ast.Constant) and n.right.value in (2, 2.0):
+                    new = "(0.5 * (%s))" % seg(n.left)
+                if new is not None:
+                    per_kind["idiom"].append(dict(base, kind="idiom", what="%d: %s" % (n.lineno, seg(n)[:50]), edits=[pos(n) + (new,)]))
         if "temp" in kinds or "kwarg" in kinds or "hoist" in kinds:
             guarded = set()
             for x in ast.walk(fn):
